@@ -1,9 +1,9 @@
 package props
 
 import (
-	"errors"
 	"context"
 	"encoding/base64"
+	"errors"
 	"fmt"
 	"net/url"
 	"strings"
